@@ -354,7 +354,8 @@ func (f *Failover) doBuild(
 		}
 
 		if f.config.FailedUpdateTTL > -1 {
-			writeErr := f.Errors.Write(ctx, key, err)
+			// TTL of value in context does not apply to cached failure, FailedUpdateTTL does.
+			writeErr := f.Errors.Write(WithTTL(ctx, DefaultTTL, false), key, err)
 			if writeErr != nil && f.logError != nil {
 				f.logError(ctx, "failed to cache update failure",
 					"error", writeErr,
